@@ -101,6 +101,8 @@ type NftScenario struct {
 	AdvChains   []string
 	MaxAdv      int
 	Burns       bool
+	// Thieves: for every user-held NFT the other user of the chain also tries to transfer it away
+	Thieves bool
 	// OddDests: destination names that are no chain of the world (too short, containing '/'); offered through a relay
 	// chain, which is what lets the packet layer accept the send
 	OddDests []string
@@ -191,6 +193,9 @@ func (s NftScenario) Actions(m *PktModel, w *world.World, g Ghost) []UserAction 
 				}})
 			}
 		}
+	}
+	if s.Thieves {
+		out = append(out, notOwnerSends(w, "steal")...)
 	}
 	nAdv := 0
 	for k, v := range g.Sends {
